@@ -98,3 +98,60 @@ def body_nodoc(func_node):
             and isinstance(body[0].value.value, str):
         body = body[1:]
     return body
+
+
+def attr_flows(func_node, var):
+    """Flow-insensitive may-flow: local name -> set of attributes ``var.X`` the
+    name may be derived from ('*' when ``var`` itself flows in)."""
+    def direct(node):
+        out = set(_attrs_of_var(node, var))
+        # bare use of var (not as the value of an attribute access)
+        attr_values = {id(n.value) for n in ast.walk(node) if isinstance(n, ast.Attribute)}
+        for n in ast.walk(node):
+            if isinstance(n, ast.Name) and n.id == var and id(n) not in attr_values:
+                out.add('*')
+        return out
+
+    taint = {}
+
+    def flows(node):
+        out = direct(node)
+        for nm in _names_in(node):
+            out |= taint.get(nm, set())
+        return out
+
+    changed, rounds = True, 0
+    while changed and rounds < 8:
+        changed = False
+        rounds += 1
+        for n in ast.walk(func_node):
+            pairs = []
+            if isinstance(n, (ast.For, ast.comprehension)):
+                pairs.append((n.target, n.iter))
+            elif isinstance(n, ast.Assign):
+                for t in n.targets:
+                    pairs.append((t, n.value))
+            elif isinstance(n, ast.AugAssign):
+                pairs.append((n.target, n.value))
+            elif isinstance(n, ast.AnnAssign) and n.value is not None:
+                pairs.append((n.target, n.value))
+            elif isinstance(n, ast.NamedExpr):
+                pairs.append((n.target, n.value))
+            elif isinstance(n, ast.withitem) and n.optional_vars is not None:
+                pairs.append((n.optional_vars, n.context_expr))
+            elif isinstance(n, ast.Call) and isinstance(n.func, ast.Attribute) \
+                    and n.func.attr in ('update', 'add', 'append', 'extend', 'insert', '__ior__') \
+                    and isinstance(n.func.value, ast.Name):
+                for a in n.args:
+                    pairs.append((n.func.value, a))
+            for tgt, src in pairs:
+                fl = flows(src)
+                if not fl:
+                    continue
+                for t in ast.walk(tgt):
+                    if isinstance(t, ast.Name) and t.id != var:
+                        old = taint.get(t.id, set())
+                        if not fl <= old:
+                            taint[t.id] = old | fl
+                            changed = True
+    return taint, flows
